@@ -55,6 +55,14 @@ def run(chk):
                 sched = dict(policy=policy, seed=rnd.randint(0, 10 ** 6), delays=delays)
                 jobs.append(dict(base, name="multi%d_%d" % (pi, k), validate=False, plan=pi, cores=cores, sched=sched,
                                  extra=["--streams", "5", "--multi", str(cores), "--schedule", json.dumps(sched)]))
+        # systematic part: every script over {0,1,2}^D for the choice points of the first legs (3 cores, pre-computation on)
+        import itertools
+        depth = 3 if quick else 5
+        base = dict(config=runs.P + "coulomb_atoms/power_bounded.ini", seed=chk.seed, sets=plans[0][1])
+        for script in itertools.product(range(3), repeat=depth):
+            sched = dict(policy="script", seed=0, delays={}, script=list(script))
+            jobs.append(dict(base, name="script_" + "".join(map(str, script)), validate=False, plan=0, cores=3, sched=sched,
+                             extra=["--streams", "5", "--multi", "3", "--schedule", json.dumps(sched)]))
         results = runs.record_and_validate(sc, jobs, workers=8, timeout=90)
         ref = {}
         for r in results:
@@ -67,12 +75,53 @@ def run(chk):
                 recs = lockstep.load(r["trace"])
                 p, v = lockstep.tables(recs)
                 ref[r["job"]["plan"]] = lockstep.commit_trace(recs, p, v)
-        pre = 0
-        for r in results:
+        stage_records = 0
+        multi = [r for r in results if not r["job"]["name"].startswith("single")]
+
+        def judge(r):
+            """TLC runs for one multi-process run (executed in a thread pool); returns what the main thread reports."""
+            import os
+            from harness.common import extract_printed, plain
             job = r["job"]
-            if job["name"].startswith("single"):
-                continue
-            desc = "cores=%d policy=%s delays=%s" % (job["cores"], job["sched"]["policy"], job["sched"]["delays"])
+            out = dict(r=r, stage=None, stage_tlc=None, lock=None)
+            if os.path.exists(r["trace"]) and os.path.getsize(r["trace"]) > 0:
+                if r["run_rc"] != 0 or not r["status"].get("ok"):
+                    good = []
+                    for line in open(r["trace"]):       # a killed run may have left a partial last line
+                        try:
+                            json.loads(line)
+                            good.append(line if line.endswith("\n") else line + "\n")
+                        except Exception:
+                            break
+                    open(r["trace"], "w").writelines(good)
+                sv = tlc.run("TraceMedStage", "TraceMedStage.cfg", sc.sub("ms_" + job["name"]), workers=1,
+                             env={"TRACE_FILE": r["trace"]}, timeout=600, java_opts=["-XX:ParallelGCThreads=2", "-Xmx2g"])
+                out["stage_tlc"] = sv
+                vs = [plain(x) for x in extract_printed(sv.out, "VERDICT")]
+                out["stage"] = vs[-1] if vs else None
+            if r["run_rc"] == 0 and r["status"].get("ok"):
+                recs = lockstep.load(r["trace"])
+                p, v = lockstep.tables(recs)
+                tb = lockstep.commit_trace(recs, p, v)
+                out["children"] = recs[-1].get("children", 0)
+                out["lock"] = lockstep.compare(sc, job["name"], ref[job["plan"]], tb, []) + (len(tb),)
+            return out
+        from concurrent.futures import ThreadPoolExecutor
+        with ThreadPoolExecutor(8) as ex:
+            judged = list(ex.map(judge, multi))
+        for jd in judged:
+            r = jd["r"]
+            job = r["job"]
+            desc = "cores=%d policy=%s delays=%s script=%s" % (job["cores"], job["sched"]["policy"], job["sched"]["delays"],
+                                                               job["sched"].get("script"))
+            if jd["stage_tlc"] is not None:
+                chk.add_tlc("TraceMedStage/" + job["name"], jd["stage_tlc"])
+                if jd["stage"] is None:
+                    chk.machinery("TraceMedStage %s: no verdict: %s" % (job["name"], jd["stage_tlc"].error or jd["stage_tlc"].out[-300:]))
+                else:
+                    stage_records += jd["stage"][0]
+                    for prop, line, clause in sorted(jd["stage"][1], key=lambda x: x[1])[:3]:
+                        chk.violation("stage:" + clause, "multi-process run, record %d: %s (%s)" % (line, clause, desc), dict(job=job))
             st = r["status"]
             if r["run_rc"] == -9:
                 chk.violation("hang", "multi-process run did not finish within 90 s (deadlock): " + desc, dict(job=job))
@@ -81,20 +130,18 @@ def run(chk):
                 chk.violation("run-exception:%s" % st.get("exc"), "multi-process run terminated by %s (%s): %s"
                               % (st.get("exc"), st.get("msg"), desc), dict(job=job, tb=st.get("tb")))
                 continue
-            recs = lockstep.load(r["trace"])
-            if recs[-1].get("children", 0) != 0:
+            if jd.get("children", 0) != 0:
                 chk.violation("children", "worker processes left behind after post_run: " + desc, dict(job=job))
-            p, v = lockstep.tables(recs)
-            tb = lockstep.commit_trace(recs, p, v)
-            ok, detail, res = lockstep.compare(sc, job["name"], ref[job["plan"]], tb, [])
+            ok, detail, res, ntb = jd["lock"]
             chk.add_tlc("Lockstep/" + job["name"], res)
             chk.traces += 1
-            chk.evaluations += len(tb)
+            chk.evaluations += ntb
             if ok is None:
                 chk.machinery("Lockstep %s: %s" % (job["name"], detail))
             elif not ok:
                 chk.violation("lockstep:multi-vs-single", "multi-process run commits other events / samples than the "
                               "single-process run after %d records: %s" % (detail["consumed_b"], desc), dict(job=job, detail=detail))
             if len(chk.samples) < 3:
-                chk.sample(dict(schedule=job["sched"], cores=job["cores"], compared_records=len(tb)))
+                chk.sample(dict(schedule=job["sched"], cores=job["cores"], compared_records=ntb))
         chk.notes["schedules"] = len(results) - len(plans)
+        chk.notes["mediator_stage_records_validated"] = stage_records
